@@ -454,6 +454,27 @@ def handle (op : String) (args : List String) : Option String :=
           " why=" ++ ",".intercalate ((pipes.flatMap (whyPipe P)).eraseDups))
       | _ => none
     | [] => none
+  | "evalT", [env, cid, v, t, e] => do
+    -- Martian.Typing.evalT: the expression `e` resolved for a parameter of type `t` in the environment `env`,
+    -- the store holding the value `v` for the call `cid` (what Fork.resolveRef → LazyArgumentMap.Path does)
+    let Γ ← whole parseEnv env
+    let cid ← bytesOfHex cid
+    let v ← whole parseJ v
+    let t ← whole parseTy t
+    let e ← whole parseExp e
+    match evalT Γ { self := [], calls := [(cid, v)] } t (bindExp Γ t e) with
+    | some w => pure (showJ w)
+    | none => pure "none"
+  | "deliveredT", [env, cid, v, t, b] => do
+    -- Martian.Typing.deliveredT: the values a binding (plain or split) delivers to the forks
+    let Γ ← whole parseEnv env
+    let cid ← bytesOfHex cid
+    let v ← whole parseJ v
+    let t ← whole parseTy t
+    let b ← whole parseBind b
+    match deliveredT Γ { self := [], calls := [(cid, v)] } t b with
+    | some ws => pure (" ".intercalate (s!"a {ws.length}" :: ws.map showJ))
+    | none => pure "none"
   | "progrun", [arg] => do
     -- the checked run of one program (Martian.Typing.runProgram) with stages that return null outputs:
     -- what remains visible is which calls were disabled (null) and the fork structure of the others
